@@ -74,11 +74,15 @@ impl PoolManager {
             if first_idle_worker >= self.pool_size {
                 return;
             };
+            #[cfg(nexosim_verif)]
+            crate::verif::point(12);
             active_workers = self
                 .active_workers
                 .fetch_or(1 << first_idle_worker, Ordering::Relaxed);
             if active_workers & (1 << first_idle_worker) == 0 {
                 self.begin_worker_search();
+                #[cfg(nexosim_verif)]
+                crate::verif::point(13);
                 self.worker_unparkers[first_idle_worker].unpark();
                 return;
             }
@@ -109,6 +113,8 @@ impl PoolManager {
                     .fetch_or(1 << first_idle_worker, Ordering::Relaxed);
                 if active_workers & (1 << first_idle_worker) == 0 {
                     self.begin_worker_search();
+                    #[cfg(nexosim_verif)]
+                    crate::verif::point(13);
                     self.worker_unparkers[first_idle_worker].unpark();
                     return;
                 }
@@ -148,6 +154,8 @@ impl PoolManager {
         assert_ne!(active_workers & (1 << worker_id), 0);
 
         if active_workers == (1 << worker_id) {
+            #[cfg(nexosim_verif)]
+            crate::verif::point(14);
             // This is the last worker so we need to ensures that after this
             // call, all tasks pushed on the injector queue before
             // `set_one_active` was called unsuccessfully are visible.
